@@ -274,3 +274,11 @@ Fixpoint set_nth {A} (i : nat) (x : A) (l : list A) : list A :=
 Definition init_state (builtins : list file) : state :=
   mkState (map (fun fc => mkMinfo 0 0 fc) builtins) [] [] [] [] [] 0.
 Definition init_cfg (glob lazy : bool) (builtins : list file) : cfg := mkCfg glob lazy (seq 0 (length builtins)).
+
+(* the state after a history of loads and rewrites *)
+Fixpoint run_hist (c : cfg) (fs : list file) (s : state) (ops : list op) : state :=
+  match ops with
+  | [] => s
+  | OWrite f fc :: t => run_hist c (set_nth f fc fs) s t
+  | OLoad f :: t => run_hist c fs (snd (load_main fs c f s)) t
+  end.
